@@ -44,6 +44,26 @@ Proof.
   apply filter_In in Hy as [Hy _]. apply H1. rewrite <- E. now apply in_map.
 Qed.
 
+(** The translated flags, used through these equations only: if the source changes so that a flag flips, they fail. *)
+Lemma delete_confirms_eq : forall nonce contract (l : list confirm),
+  delete_confirms nonce contract l = filter (fun c => negb (of_batch nonce contract c)) l.
+Proof. reflexivity. Qed.
+
+Lemma key_confirmed_eq : forall nonce contract a (l : list confirm),
+  key_confirmed nonce contract a l = existsb (fun c => of_batch nonce contract c && (cf_signer c =? a)) l.
+Proof. reflexivity. Qed.
+
+Lemma update_deletes : Gen.C06.update_estimate_deletes_confirms = true.
+Proof. reflexivity. Qed.
+
+Lemma remove_deletes : Gen.C06.cancel_deletes_confirms && Gen.C06.executed_deletes_confirms = true.
+Proof. reflexivity. Qed.
+
+Lemma may_confirm_eq : forall st, may_confirm st = (st =? st_unbonding) || (st =? st_bonded).
+Proof. reflexivity. Qed.
+
+Opaque delete_confirms key_confirmed may_confirm.
+
 Definition cwf (s : cstate) : Prop :=
   NoDup (map b_nonce (cs_batches s)) /\ Forall (fun b => b_nonce b <= cs_last s) (cs_batches s).
 
@@ -53,8 +73,9 @@ Proof. intros. unfold Confirms.crun, Confirms.crun_from. now rewrite fold_left_a
 Lemma cwf_step : forall s o, cwf s -> cwf (fst (cstep s o)).
 Proof.
   intros s o W.
-  destruct o as [v accts|contract chain body timeout relayer|v nonce contract signer sg|nonce contract e|nonce contract]; simpl.
-  - destruct (collides _ _ _); simpl; auto.
+  destruct o as [v accts|v st|contract chain body timeout relayer|v nonce contract signer sg|nonce contract e|nonce contract]; simpl.
+  - destruct (negb _); [exact W|]. destruct (collides _ _ _); simpl; auto.
+  - exact W.
   - destruct W as [ND B]. split; simpl.
     + rewrite map_app. simpl. apply NoDup_snoc; auto.
       intros Hin. apply in_map_iff in Hin as (b & E & Hin).
@@ -63,10 +84,11 @@ Proof.
       * eapply Forall_impl; [|exact B]. simpl. intros; lia.
       * constructor; [simpl; lia|constructor].
   - destruct (find_batch _ _ _) as [b|]; [|exact W].
+    destruct (status_of _ _ =? st_none); [exact W|]. destruct (negb (may_confirm _)); [exact W|].
     destruct (eth_address _ _ _) as [a|]; [|exact W].
     destruct (negb (a =? signer)); [exact W|]. destruct (negb (verify _ _ _)); [exact W|].
     destruct (existsb (fun c0 : confirm => of_batch nonce contract c0 && (cf_val c0 =? v)) (cs_confirms s)); [exact W|].
-    destruct (existsb (fun c0 : confirm => of_batch nonce contract c0 && (cf_signer c0 =? a)) (cs_confirms s)); exact W.
+    destruct (key_confirmed nonce contract a (cs_confirms s)); exact W.
   - destruct (find_batch _ _ _) as [b|]; [|exact W].
     destruct (0 <? b_est b); [exact W|].
     destruct W as [ND B]. split; simpl.
@@ -115,18 +137,22 @@ Proof.
   induction ops as [|o ops IH] using rev_ind; intros c Hin.
   - destruct Hin.
   - rewrite crun_snoc in *. pose proof (cwf_run ops) as W. set (s := crun ops) in *.
-    destruct o as [v accts|contract chain body timeout relayer|v nonce contract signer sg|nonce contract e|nonce contract];
+    destruct o as [v accts|v st|contract chain body timeout relayer|v nonce contract signer sg|nonce contract e|nonce contract];
       simpl in *.
-    + destruct (collides _ _ _); simpl in *; (eapply confirm_ok_extend; [|apply IH; exact Hin]); auto.
+    + destruct (negb _); [eapply confirm_ok_extend; [|apply IH; exact Hin]; auto|].
+      destruct (collides _ _ _); simpl in *; (eapply confirm_ok_extend; [|apply IH; exact Hin]); auto.
+    + eapply confirm_ok_extend; [|apply IH; exact Hin]; auto.
     + eapply confirm_ok_extend; [|apply IH; exact Hin]. intros. apply in_or_app. now left.
     + destruct (find_batch (cs_batches s) contract nonce) as [b|] eqn:EF;
         [|eapply confirm_ok_extend; [|apply IH; exact Hin]; auto].
+      destruct (status_of (cs_status s) v =? st_none) eqn:ES0; [eapply confirm_ok_extend; [|apply IH; exact Hin]; auto|].
+      destruct (negb (may_confirm (status_of (cs_status s) v))) eqn:ES1; [eapply confirm_ok_extend; [|apply IH; exact Hin]; auto|].
       destruct (eth_address (cs_reg s) v (b_chain b)) as [a|] eqn:EA;
         [|eapply confirm_ok_extend; [|apply IH; exact Hin]; auto].
       destruct (negb (a =? signer)) eqn:E1; [eapply confirm_ok_extend; [|apply IH; exact Hin]; auto|].
       destruct (negb (verify (checkpoint b) sg a)) eqn:E2; [eapply confirm_ok_extend; [|apply IH; exact Hin]; auto|].
       destruct (existsb (fun c0 : confirm => of_batch nonce contract c0 && (cf_val c0 =? v)) (cs_confirms s)) eqn:E3; [eapply confirm_ok_extend; [|apply IH; exact Hin]; auto|].
-      destruct (existsb (fun c0 : confirm => of_batch nonce contract c0 && (cf_signer c0 =? a)) (cs_confirms s)) eqn:E4; [eapply confirm_ok_extend; [|apply IH; exact Hin]; auto|].
+      destruct (key_confirmed nonce contract a (cs_confirms s)) eqn:E4; [eapply confirm_ok_extend; [|apply IH; exact Hin]; auto|].
       simpl in Hin. apply in_app_or in Hin as [Hin|[<-|[]]].
       * eapply confirm_ok_extend; [|apply IH; exact Hin]; auto.
       * apply negb_false_iff in E1. apply Z.eqb_eq in E1. subst signer.
@@ -137,7 +163,8 @@ Proof.
     + destruct (find_batch (cs_batches s) contract nonce) as [b1|] eqn:EF;
         [|eapply confirm_ok_extend; [|apply IH; exact Hin]; auto].
       destruct (0 <? b_est b1); [eapply confirm_ok_extend; [|apply IH; exact Hin]; auto|].
-      simpl in Hin. assert (Hc : In c (cs_confirms s) /\ of_batch nonce contract c = false).
+      simpl in Hin. rewrite ?update_deletes, delete_confirms_eq in Hin.
+      assert (Hc : In c (cs_confirms s) /\ of_batch nonce contract c = false).
       { apply filter_In in Hin as [Hin Hf]. split; auto. now apply negb_true_iff in Hf. }
       destruct Hc as [Hc Hf].
       eapply confirm_ok_extend; [|apply IH; exact Hc]. simpl.
@@ -148,7 +175,8 @@ Proof.
       unfold of_batch in Hf. rewrite <- En, <- Ec, N1, C1, !Z.eqb_refl in Hf. discriminate.
     + destruct (find_batch (cs_batches s) contract nonce) as [b1|] eqn:EF;
         [|eapply confirm_ok_extend; [|apply IH; exact Hin]; auto].
-      simpl in Hin. apply filter_In in Hin as [Hc Hf]. apply negb_true_iff in Hf.
+      simpl in Hin. rewrite ?remove_deletes, delete_confirms_eq in Hin.
+      apply filter_In in Hin as [Hc Hf]. apply negb_true_iff in Hf.
       eapply confirm_ok_extend; [|apply IH; exact Hc]. simpl.
       intros b Hb En Ec. apply filter_In. split; auto. apply negb_true_iff.
       destruct (b_nonce b =? nonce) eqn:E; auto. exfalso.
@@ -178,22 +206,24 @@ Proof.
   induction ops as [|o ops IH] using rev_ind.
   - split; constructor.
   - rewrite crun_snoc. set (s := crun ops) in *. destruct IH as [N1 N2].
-    destruct o as [v accts|contract chain body timeout relayer|v nonce contract signer sg|nonce contract e|nonce contract];
+    destruct o as [v accts|v st|contract chain body timeout relayer|v nonce contract signer sg|nonce contract e|nonce contract];
       simpl.
-    + destruct (collides _ _ _); simpl; auto.
+    + destruct (negb _); [auto|]. destruct (collides _ _ _); simpl; auto.
+    + auto.
     + auto.
     + destruct (find_batch (cs_batches s) contract nonce) as [b|]; [|auto].
+      destruct (status_of (cs_status s) v =? st_none); [auto|]. destruct (negb (may_confirm _)); [auto|].
       destruct (eth_address (cs_reg s) v (b_chain b)) as [a|]; [|auto].
       destruct (negb (a =? signer)); [auto|]. destruct (negb (verify _ _ _)); [auto|].
       destruct (existsb (fun c0 : confirm => of_batch nonce contract c0 && (cf_val c0 =? v)) (cs_confirms s)) eqn:E3; [auto|].
-      destruct (existsb (fun c0 : confirm => of_batch nonce contract c0 && (cf_signer c0 =? a)) (cs_confirms s)) eqn:E4; [auto|].
+      destruct (key_confirmed nonce contract a (cs_confirms s)) eqn:E4; [auto|]. rewrite key_confirmed_eq in E4.
       simpl. rewrite !map_app. simpl. split; apply NoDup_snoc; auto.
       * exact (existsb_false_not_in _ _ _ cf_val _ E3).
       * exact (existsb_false_not_in _ _ _ cf_signer _ E4).
     + destruct (find_batch (cs_batches s) contract nonce) as [b|]; [|auto].
-      destruct (0 <? b_est b); [auto|]. simpl. split; now apply NoDup_map_filter.
+      destruct (0 <? b_est b); [auto|]. simpl. rewrite ?update_deletes, delete_confirms_eq. split; now apply NoDup_map_filter.
     + destruct (find_batch (cs_batches s) contract nonce) as [b|]; [|auto].
-      simpl. split; now apply NoDup_map_filter.
+      simpl. rewrite ?remove_deletes, delete_confirms_eq. split; now apply NoDup_map_filter.
 Qed.
 
 (** ** Confirmations are deleted when the checkpoint changes *)
@@ -208,26 +238,105 @@ Proof.
   assert (Same : In b' (cs_batches s) -> False).
   { intros H. assert (b' = b) as -> by (apply (nodup_nonce_unique (cs_batches s)); [apply W|auto|auto|congruence]).
     now apply Hne. }
-  destruct o as [v accts|contract chain body timeout relayer|v nonce contract signer sg|nonce contract e|nonce contract];
+  destruct o as [v accts|v st|contract chain body timeout relayer|v nonce contract signer sg|nonce contract e|nonce contract];
     simpl in *.
-  - destruct (collides _ _ _); simpl in *; now destruct Same.
+  - destruct (negb _); [now destruct Same|]. destruct (collides _ _ _); simpl in *; now destruct Same.
+  - now destruct Same.
   - apply in_app_or in Hb' as [H|[<-|[]]]; [now destruct Same|]. simpl in *.
     destruct W as [_ B]. rewrite Forall_forall in B. specialize (B _ Hb). lia.
   - destruct (find_batch (cs_batches s) contract nonce) as [b1|]; [|now destruct Same].
+    destruct (status_of (cs_status s) v =? st_none); [now destruct Same|]. destruct (negb (may_confirm _)); [now destruct Same|].
     destruct (eth_address (cs_reg s) v (b_chain b1)) as [a|]; [|now destruct Same].
     destruct (negb (a =? signer)); [now destruct Same|]. destruct (negb (verify _ _ _)); [now destruct Same|].
     destruct (existsb (fun c0 : confirm => of_batch nonce contract c0 && (cf_val c0 =? v)) (cs_confirms s)); [now destruct Same|].
-    destruct (existsb (fun c0 : confirm => of_batch nonce contract c0 && (cf_signer c0 =? a)) (cs_confirms s)); now destruct Same.
+    destruct (key_confirmed nonce contract a (cs_confirms s)); now destruct Same.
   - destruct (find_batch (cs_batches s) contract nonce) as [b1|] eqn:EF; [|now destruct Same].
     destruct (0 <? b_est b1); [now destruct Same|]. simpl in *.
     apply in_map_iff in Hb' as (x & Ex & Hx).
     destruct (b_nonce x =? nonce) eqn:E; [|subst x; now destruct Same].
     apply Z.eqb_eq in E. apply find_batch_some in EF as (H1 & N1 & C1).
     assert (x = b1) as -> by (apply (nodup_nonce_unique (cs_batches s)); [apply W|auto|auto|congruence]).
-    subst b'. simpl. apply filter_In in Hc as [_ Hf]. apply negb_true_iff in Hf.
+    subst b'. simpl. rewrite ?update_deletes, delete_confirms_eq in Hc. apply filter_In in Hc as [_ Hf]. apply negb_true_iff in Hf.
     now rewrite N1, C1.
   - destruct (find_batch (cs_batches s) contract nonce) as [b1|]; [|now destruct Same].
     simpl in *. apply filter_In in Hb' as [Hb' _]. now destruct Same.
+Qed.
+
+(** ** Clearing is total: after an accepted UpdateBatchGasEstimate / cancel / executed NO confirmation of that batch is
+    left, however many there were (the statement is over the whole confirmation store, no bound on its size). *)
+
+Theorem no_confirm_survives_clearing_all : forall ops o nonce contract,
+  (exists e, o = BUpdateEstimate nonce contract e) \/ o = BRemove nonce contract ->
+  snd (cstep (crun ops) o) = COk ->
+  forall c, In c (cs_confirms (fst (cstep (crun ops) o))) -> of_batch nonce contract c = false.
+Proof.
+  intros ops o nonce contract Ho Hok c Hc. set (s := crun ops) in *.
+  destruct Ho as [[e ->]| ->]; simpl in *.
+  - destruct (find_batch (cs_batches s) contract nonce) as [b|]; [|discriminate].
+    destruct (0 <? b_est b); [discriminate|]. simpl in Hc.
+    rewrite ?update_deletes, delete_confirms_eq in Hc.
+    apply filter_In in Hc as [_ Hf]. now apply negb_true_iff in Hf.
+  - destruct (find_batch (cs_batches s) contract nonce) as [b|]; [|discriminate]. simpl in Hc.
+    rewrite ?remove_deletes, delete_confirms_eq in Hc.
+    apply filter_In in Hc as [_ Hf]. now apply negb_true_iff in Hf.
+Qed.
+
+(** ** Only bonded or unbonding validators confirm *)
+
+Definition cbonded_in (ops : list cop) (c : confirm) : Prop :=
+  exists pre post,
+    ops = pre ++ BConfirm (cf_val c) (cf_nonce c) (cf_contract c) (cf_signer c) (cf_sig c) :: post /\
+    (status_of (cs_status (crun pre)) (cf_val c) = st_unbonding \/ status_of (cs_status (crun pre)) (cf_val c) = st_bonded).
+
+Lemma cbonded_extend : forall ops o c, cbonded_in ops c -> cbonded_in (ops ++ [o]) c.
+Proof.
+  intros ops o c (pre & post & -> & H). exists pre, (post ++ [o]). split; auto. now rewrite <- app_assoc.
+Qed.
+
+Theorem confirms_only_from_bonded_or_unbonding_all : forall ops c,
+  In c (cs_confirms (crun ops)) -> cbonded_in ops c.
+Proof.
+  induction ops as [|o ops IH] using rev_ind; intros c Hin.
+  - destruct Hin.
+  - rewrite crun_snoc in *. set (s := crun ops) in *.
+    destruct o as [v accts|v st|contract chain body timeout relayer|v nonce contract signer sg|nonce contract e|nonce contract];
+      simpl in *.
+    + destruct (negb _); [apply cbonded_extend, IH; exact Hin|].
+      destruct (collides _ _ _); simpl in *; apply cbonded_extend, IH; exact Hin.
+    + apply cbonded_extend, IH; exact Hin.
+    + apply cbonded_extend, IH; exact Hin.
+    + destruct (find_batch (cs_batches s) contract nonce) as [b|]; [|apply cbonded_extend, IH; exact Hin].
+      destruct (status_of (cs_status s) v =? st_none) eqn:ES0; [apply cbonded_extend, IH; exact Hin|].
+      destruct (negb (may_confirm (status_of (cs_status s) v))) eqn:ES1; [apply cbonded_extend, IH; exact Hin|].
+      destruct (eth_address (cs_reg s) v (b_chain b)) as [a|]; [|apply cbonded_extend, IH; exact Hin].
+      destruct (negb (a =? signer)) eqn:E1; [apply cbonded_extend, IH; exact Hin|].
+      destruct (negb (verify (checkpoint b) sg a)); [apply cbonded_extend, IH; exact Hin|].
+      destruct (existsb (fun c0 : confirm => of_batch nonce contract c0 && (cf_val c0 =? v)) (cs_confirms s)); [apply cbonded_extend, IH; exact Hin|].
+      destruct (key_confirmed nonce contract a (cs_confirms s)); [apply cbonded_extend, IH; exact Hin|].
+      simpl in Hin. apply in_app_or in Hin as [Hin|[<-|[]]]; [apply cbonded_extend, IH; exact Hin|].
+      apply negb_false_iff in E1. apply Z.eqb_eq in E1. subst signer.
+      exists ops, []. simpl. split; auto.
+      apply negb_false_iff in ES1. rewrite may_confirm_eq in ES1.
+      apply orb_true_iff in ES1 as [H|H]; apply Z.eqb_eq in H; auto.
+    + destruct (find_batch (cs_batches s) contract nonce) as [b1|]; [|apply cbonded_extend, IH; exact Hin].
+      destruct (0 <? b_est b1); [apply cbonded_extend, IH; exact Hin|].
+      simpl in Hin. rewrite ?update_deletes, delete_confirms_eq in Hin.
+      apply filter_In in Hin as [Hin _]. apply cbonded_extend, IH; exact Hin.
+    + destruct (find_batch (cs_batches s) contract nonce) as [b1|]; [|apply cbonded_extend, IH; exact Hin].
+      simpl in Hin. rewrite ?remove_deletes, delete_confirms_eq in Hin.
+      apply filter_In in Hin as [Hin _]. apply cbonded_extend, IH; exact Hin.
+Qed.
+
+(** A confirmation sent for an orchestrator that is no validator, or whose validator is unbonded, changes nothing. *)
+Theorem unbonded_cannot_confirm_all : forall (s : cstate) v nonce contract signer sg,
+  status_of (cs_status s) v = st_none \/ status_of (cs_status s) v = st_unbonded ->
+  fst (cstep s (BConfirm v nonce contract signer sg)) = s /\ snd (cstep s (BConfirm v nonce contract signer sg)) <> COk.
+Proof.
+  intros s v nonce contract signer sg H. simpl.
+  destruct (find_batch (cs_batches s) contract nonce) as [b|]; [|split; [reflexivity|discriminate]].
+  destruct H as [H|H]; rewrite H; simpl.
+  - split; [reflexivity|discriminate].
+  - rewrite may_confirm_eq. simpl. split; [reflexivity|discriminate].
 Qed.
 
 End Proofs.
@@ -242,7 +351,8 @@ Definition ex_csig (key : Z) (b : batch) : icsig := Some (key, checkpoint b).
     the same batch; the estimate 21000 is elected: confirmations gone; the old signature is refused,
     one over the new checkpoint is accepted. *)
 Definition ex_cops : list (cop icsig) :=
-  [ BRegister 1 [{| ac_chain := 1; ac_addr := 11; ac_key := 101; ac_eth := 11 |}];
+  [ BSetStatus 1 st_bonded; BSetStatus 2 st_bonded; BSetStatus 3 st_bonded;
+    BRegister 1 [{| ac_chain := 1; ac_addr := 11; ac_key := 101; ac_eth := 11 |}];
     BRegister 2 [{| ac_chain := 1; ac_addr := 12; ac_key := 102; ac_eth := 12 |}];
     BBuild 9 1 7 1000 55;
     BConfirm 1 1 9 11 (ex_csig 11 (ex_batch 0));
@@ -255,14 +365,37 @@ Definition ex_cops : list (cop icsig) :=
     BConfirm 2 1 9 12 (ex_csig 12 (ex_batch 21000)) ].
 
 Example ex_confirms :
-  List.length (cs_confirms (crun icsig icverify (firstn 5 ex_cops))) = 2%nat /\
-  snd (cstep icsig icverify (crun icsig icverify (firstn 7 ex_cops)) (nth 7 ex_cops (BRemove 0 0))) = CDupKey /\
-  cs_confirms (crun icsig icverify (firstn 9 ex_cops)) = [] /\
+  List.length (cs_confirms (crun icsig icverify (firstn 8 ex_cops))) = 2%nat /\
+  snd (cstep icsig icverify (crun icsig icverify (firstn 10 ex_cops)) (nth 10 ex_cops (BRemove 0 0))) = CDupKey /\
+  cs_confirms (crun icsig icverify (firstn 12 ex_cops)) = [] /\
   checkpoint (ex_batch 21000) <> checkpoint (ex_batch 0) /\
-  snd (cstep icsig icverify (crun icsig icverify (firstn 9 ex_cops)) (nth 9 ex_cops (BRemove 0 0))) = CBadSig /\
+  snd (cstep icsig icverify (crun icsig icverify (firstn 12 ex_cops)) (nth 12 ex_cops (BRemove 0 0))) = CBadSig /\
   exists c, cs_confirms (crun icsig icverify ex_cops) = [c] /\ cf_val c = 2 /\ cf_signer c = 12 /\
             icverify (checkpoint (ex_batch 21000)) (cf_sig c) (cf_signer c) = true.
 Proof.
   vm_compute. repeat split; try reflexivity; try discriminate.
   eexists. repeat split; reflexivity.
 Qed.
+
+(** Non-vacuity of the clearing theorem on a store that is not small: 150 validators confirm batch 1, the estimate
+    is elected, nothing of it is left; an unbonded validator (200) and a non-validator (201) are refused. *)
+Definition ex_many (n : nat) : list (cop icsig) :=
+  flat_map (fun i => let v := Z.of_nat i + 1 in
+     [BSetStatus v st_bonded; BRegister v [{| ac_chain := 1; ac_addr := 1000 + v; ac_key := 2000 + v; ac_eth := 1000 + v |}]]) (seq 0 n)
+  ++ [BBuild 9 1 7 1000 55]
+  ++ map (fun i => let v := Z.of_nat i + 1 in BConfirm v 1 9 (1000 + v) (ex_csig (1000 + v) (ex_batch 0))) (seq 0 n).
+
+Example ex_many_confirms_cleared :
+  List.length (cs_confirms (crun icsig icverify (ex_many 150))) = 150%nat /\
+  cs_confirms (crun icsig icverify (ex_many 150 ++ [BUpdateEstimate 1 9 21000])) = [] /\
+  snd (cstep icsig icverify (crun icsig icverify (ex_many 3 ++ [BSetStatus 2 st_unbonded]))
+        (BConfirm 2 1 9 1002 (ex_csig 1002 (ex_batch 0)))) = CUnbonded /\
+  snd (cstep icsig icverify (crun icsig icverify (ex_many 3 ++ [BSetStatus 200 st_unbonded;
+          BRegister 200 [{| ac_chain := 1; ac_addr := 1200; ac_key := 2200; ac_eth := 1200 |}]]))
+        (BConfirm 200 1 9 1200 (ex_csig 1200 (ex_batch 0)))) = CUnbonded /\
+  snd (cstep icsig icverify (crun icsig icverify (ex_many 3)) (BConfirm 201 1 9 1201 (ex_csig 1201 (ex_batch 0)))) = CNotValidator /\
+  snd (cstep icsig icverify (crun icsig icverify (ex_many 3 ++ [BUpdateEstimate 1 9 21000; BSetStatus 2 st_unbonding]))
+        (BConfirm 2 1 9 1002 (ex_csig 1002 (ex_batch 21000)))) = COk /\
+  snd (cstep icsig icverify (crun icsig icverify (ex_many 3 ++ [BSetStatus 2 st_unbonding]))
+        (BRegister 2 [{| ac_chain := 1; ac_addr := 1300; ac_key := 2300; ac_eth := 1300 |}])) = CNotBonded.
+Proof. vm_compute. repeat split; reflexivity. Qed.
